@@ -347,6 +347,30 @@ func (g *bridgeGen) depositItem(d *depInfo, flaw string) (*bitcointypes.Deposit,
 		e2 := g.evms[(g.r.Intn(len(g.evms)-1)+1+indexOf(g.evms, d.evm))%len(g.evms)]
 		dep.EvmAddress = e2
 		f["evm"] = hex.EncodeToString(e2)
+	case "evmFold": // ALMOST the EVM address the output was made for: the bytes that are ASCII letters in the other case (or, without
+		// any, one byte >= 0x80 replaced by another) - equal under a text comparison that folds case, a different address all the same
+		e2 := append([]byte{}, d.evm...)
+		changed := false
+		for i, b := range e2 {
+			if (b >= 'A' && b <= 'Z') || (b >= 'a' && b <= 'z') {
+				e2[i] = b ^ 0x20
+				changed = true
+			}
+		}
+		if !changed {
+			for i, b := range e2 {
+				if b >= 0x80 {
+					e2[i] = b ^ 1
+					changed = true
+					break
+				}
+			}
+		}
+		if !changed {
+			e2[19] ^= 1
+		}
+		dep.EvmAddress = e2
+		f["evm"] = hex.EncodeToString(e2)
 	case "otherKey": // claims another registered (or not) key than the one the script commits to
 		k2 := g.keys[g.r.Intn(len(g.keys))]
 		dep.RelayerPubkey = k2.Pub
@@ -780,15 +804,27 @@ func (g *bridgeGen) plan(mode string) (*BlockPlan, error) {
 			taxes = append(taxes, Ev{"rate": project.Clamp(rate), "max": project.Clamp(max)})
 		}
 	}
+	several := func() int { // mostly one request of a kind per block; now and then several (in range and out of range, in any order)
+		if r.Intn(3) == 0 {
+			return 2 + r.Intn(2)
+		}
+		return 1
+	}
 	if r.Intn(12) < pk {
-		n := []uint64{0, 1, 6, 1 << 63}[r.Intn(4)]
-		br.Confirmation = append(br.Confirmation, &goattypes.ConfirmationNumberRequest{Number: n})
-		confs = append(confs, project.Clamp(n))
+		for k := several(); k > 0; k-- {
+			n := []uint64{0, 1, 6, 1 << 63}[r.Intn(4)]
+			br.Confirmation = append(br.Confirmation, &goattypes.ConfirmationNumberRequest{Number: n})
+			confs = append(confs, project.Clamp(n))
+		}
 	}
 	if r.Intn(8) < pk {
-		n := []uint64{0, 999, 1000, 1001, 5000, 20000, ^uint64(0)}[r.Intn(7)]
-		br.MinDeposit = append(br.MinDeposit, &goattypes.MinDepositRequest{Satoshi: n})
-		minDeps = append(minDeps, project.Clamp(n))
+		n := uint64(0)
+		for k := several(); k > 0; k-- {
+			n = []uint64{0, 999, 1000, 1001, 5000, 20000, ^uint64(0)}[r.Intn(7)]
+			br.MinDeposit = append(br.MinDeposit, &goattypes.MinDepositRequest{Satoshi: n})
+			minDeps = append(minDeps, project.Clamp(n))
+		}
+		_ = n
 	}
 	if wds != nil {
 		abs["withdraws"] = wds
@@ -1030,13 +1066,13 @@ func (g *bridgeGen) plan(mode string) (*BlockPlan, error) {
 				if d == g.cbDep && rare(3) { // a coinbase transaction presented under an aliased (non-zero) position
 					flaw = "posAlias"
 				} else if mode == "addr" && rare(3) {
-					flaw = []string{"otherEvm", "otherKey", "version", "otherOut"}[r.Intn(4)]
+					flaw = []string{"otherEvm", "evmFold", "evmFold", "otherKey", "version", "otherOut"}[r.Intn(6)]
 				} else if mode == "spv" { // only what the inclusion proof is about varies: position, path, header
 					if rare(3) {
 						flaw = []string{"pos", "posAlias", "proof", "proofTrunc", "proofRagged", "header"}[r.Intn(6)]
 					}
 				} else if rare(4) && perm == nil {
-					flaw = []string{"otherEvm", "otherKey", "version", "version2", "outIdx", "otherOut", "pos", "posAlias", "proof", "proofTrunc", "proofRagged", "header", "noHeader", "evmLen", "txTrunc"}[r.Intn(15)]
+					flaw = []string{"otherEvm", "evmFold", "otherKey", "version", "version2", "outIdx", "otherOut", "pos", "posAlias", "proof", "proofTrunc", "proofRagged", "header", "noHeader", "evmLen", "txTrunc"}[r.Intn(16)]
 				}
 				if flaw == "none" && j > 1 && rare(3) && perm == nil {
 					for _, x := range cand { // prefer an output that really has a second position
